@@ -471,12 +471,15 @@ func genService(t *rapid.T, wild int) *serviceS {
 }
 
 var htlcDenoms = []string{"htltbnb", "htltbnb", "htltbtc", "htlt", "htltx", "HTLTBNB", "htltBNB", "bnbhtlt", "", "htlt bnb", "htlt" + strings.Repeat("y", 124), "htlt" + strings.Repeat("y", 125)}
+// htlcValidDenoms: asset names, two of them related to another one (a doubled first letter after the prefix, an extra
+// last letter): whatever is derived from a name by trimming or prefixing must keep them apart
+var htlcValidDenoms = []string{"htltbnb", "htltbtc", "htlteth", "htlttbtc", "htltbnbx"}
 var lockGrid = []uint64{0, 49, 50, 51, 60, 100, 34559, 34560, 34561, math.MaxUint64}
 
 func genAsset(t *rapid.T, i int, wild int) assetS {
 	l := fmt.Sprintf("ht%d.", i)
 	a := assetS{
-		Denom:       rapid.SampledFrom([]string{"htltbnb", "htltbtc", "htlteth"}).Draw(t, l+"denom"),
+		Denom:       rapid.SampledFrom(htlcValidDenoms).Draw(t, l+"denom"),
 		Limit:       pickAmt(t, l+"limit", wild, []intS{"0", "1", "1000000", intS(gen.Pow2(128).String()), intS(gen.Pow2(255).String()), intS(maxInt256())}),
 		TimeLimited: rapid.Bool().Draw(t, l+"tl"),
 		Period:      rapid.SampledFrom(durGrid).Draw(t, l+"period"),
@@ -516,7 +519,7 @@ func genHTLC(t *rapid.T, wild int) *htlcS {
 		if i > 0 && rapid.IntRange(0, 9).Draw(t, fmt.Sprintf("ht%d.dup", i)) > 0 { // mostly distinct denoms
 			for _, b := range s.Assets {
 				if b.Denom == a.Denom {
-					a.Denom = []string{"htltbnb", "htltbtc", "htlteth"}[i%3]
+					a.Denom = htlcValidDenoms[(i+1)%len(htlcValidDenoms)]
 				}
 			}
 		}
